@@ -222,6 +222,39 @@ func c23Gen(rt *rapid.T, r *evid.Rec) *hist.Case {
 	return c
 }
 
+// c23GenShrink: a resumed session whose new connection announces a smaller Maximum Packet Size than the one on which
+// its unacknowledged QoS>0 messages were first sent (or queued): whatever is (re)sent must respect the NEW limit.
+func c23GenShrink(rt *rapid.T) *hist.Case {
+	c := &hist.Case{}
+	c.Cfg.ClientPIDBase = 1000
+	exp := uint32(300)
+	conn := func(maxpkt uint32, auto bool) hist.Action {
+		a := hist.Action{Kind: "connect", Client: 0, Version: 5, Clean: false, Expiry: &exp, AutoAck: auto}
+		if maxpkt > 0 {
+			a.MaxPkt = &maxpkt
+		}
+		return a
+	}
+	c.Actions = append(c.Actions, hist.Action{Kind: "connect", Client: 1, Version: pick(rt, "pv", []byte{4, 5}), Clean: true, AutoAck: true},
+		conn(pick(rt, "first-limit", []uint32{0, 200, 400}), false),
+		hist.Action{Kind: "subscribe", Client: 0, Filters: []refmqtt.Filter{{Filter: "t/#", QoS: byte(rapid.IntRange(1, 2).Draw(rt, "sq"))}}})
+	pub := func() hist.Action {
+		return hist.Action{Kind: "publish", Client: 1, Topic: "t/a", QoS: byte(rapid.IntRange(0, 2).Draw(rt, "pq")), Pad: pick(rt, "pad", []int{0, 30, 100, 150})}
+	}
+	for i, n := 0, rapid.IntRange(1, 3).Draw(rt, "online"); i < n; i++ {
+		c.Actions = append(c.Actions, pub())
+	}
+	if rapid.Bool().Draw(rt, "offline-first") {
+		c.Actions = append(c.Actions, hist.Action{Kind: pick(rt, "how", []string{"drop", "disconnect"}), Client: 0})
+		for i, n := 0, rapid.IntRange(0, 2).Draw(rt, "offline"); i < n; i++ {
+			c.Actions = append(c.Actions, pub())
+		}
+	}
+	c.Actions = append(c.Actions, conn(pick(rt, "second-limit", []uint32{20, 40, 60, 120}), rapid.Bool().Draw(rt, "auto2")),
+		pub(), hist.Action{Kind: "ping", Client: 0})
+	return c
+}
+
 func TestC23(t *testing.T) {
 	r := evid.New("C23", "rapid: histories biased to error paths - v3.1/v3.1.1/v5 clients with Maximum Packet Size in {absent,20,60,200}, Request Problem Information {absent,0,1}, Request Response Information {0,1}; invalid CONNECTs of every kind; ACL denials (obscured or not); receive-maximum violations by non-acknowledging clients; takeovers; invalid and denied subscriptions; raw malformed packets; server maximum packet size and maximum QoS; half of the cases are drawn from the generators of the other simulation-based checks (C07-C17, C19, C24, C25, C34, C38, C40: wills, aliases, expiry, hooks, permissions, bursts, inline API, ...); oracle: every byte the broker wrote on every connection must split into packets the independent strict decoder accepts for that connection's version (framing, flags, direction, property and reason-code whitelists), nothing after DISCONNECT, size <= client maximum, problem/response information only when allowed; non-trivial = a connection that received a packet produced by an error path (failure CONNACK, DISCONNECT, negative acknowledgement); distinct by (history, connection)")
 	defer r.Finish(t)
@@ -239,7 +272,7 @@ func TestC23(t *testing.T) {
 		}
 		others := []gen{{"C07", c07Gen}, {"C08", c08Gen}, {"C09", c09Gen}, {"C10", c10Gen}, {"C11", c11Gen}, {"C12", c12Gen}, {"C13", c13Gen}, {"C14", c14Gen},
 			{"C15", c15Gen}, {"C16", c16Gen}, {"C17", c17Gen}, {"C19", c19Gen}, {"C24-outbound", c24GenOutbound}, {"C24-inbound", c24GenInbound},
-			{"C25", c25Gen}, {"C34", c34Gen}, {"C38", c38Gen}, {"C40", c40Gen}}
+			{"C25", c25Gen}, {"C34", c34Gen}, {"C38", c38Gen}, {"C40", c40Gen}, {"C23-shrinking-packet-size", c23GenShrink}}
 		// (built from fair coin flips: rapid's integer generators favour small values, which would starve the later entries)
 		k := 0
 		for i := 0; i < 6; i++ {
